@@ -7,29 +7,66 @@ open Robotools
 
 variable {α : Type}
 
+private theorem length_replicate_flatten (k : Nat) (ws : List α) :
+    (List.replicate k ws).flatten.length = k * ws.length := by
+  induction k with
+  | zero => simp
+  | succ k ih => simp [List.replicate_succ, ih, Nat.succ_mul, Nat.add_comm]
+
+private theorem getElem?_replicate_flatten (k : Nat) (ws : List α) (i : Nat)
+    (hi : i < k * ws.length) :
+    (List.replicate k ws).flatten[i]? = ws[i % ws.length]? := by
+  induction k generalizing i with
+  | zero => simp at hi
+  | succ k ih =>
+    rw [List.replicate_succ, List.flatten_cons]
+    by_cases h : i < ws.length
+    · rw [List.getElem?_append_left h, Nat.mod_eq_of_lt h]
+    · have h' : ws.length ≤ i := Nat.le_of_not_lt h
+      rw [List.getElem?_append_right h', ih, Nat.mod_eq_sub_mod h']
+      rw [Nat.succ_mul] at hi
+      omega
+
+private theorem eval_eq (n : Nat) (ws : List α) (h : ws ≠ []) :
+    getTroughWells n ws = some ((List.replicate (n / ws.length + 1) ws).flatten.take n) := by
+  simp [getTroughWells, h]
+
+private theorem lt_div_succ_mul (n len : Nat) (h : 0 < len) : n < (n / len + 1) * len := by
+  rw [Nat.mul_comm]
+  exact Nat.lt_mul_div_succ n h
+
 /-- An empty well list is rejected. -/
 theorem rejects_empty (n : Nat) : getTroughWells n ([] : List α) = none := by
-  sorry
+  simp [getTroughWells]
 
 /-- Exactly `n` wells are returned. -/
 theorem length_eq (n : Nat) (ws : List α) (h : ws ≠ []) :
     ∃ l, getTroughWells n ws = some l ∧ l.length = n := by
-  sorry
+  have hpos : 0 < ws.length := List.length_pos_iff.mpr h
+  refine ⟨_, eval_eq n ws h, ?_⟩
+  rw [List.length_take, length_replicate_flatten]
+  have := lt_div_succ_mul n ws.length hpos
+  omega
 
 /-- The `i`-th returned well is the `(i mod len)`-th of the given wells. -/
 theorem get_mod (n : Nat) (ws : List α) (h : ws ≠ []) (i : Nat) (hi : i < n) :
     ∃ l, getTroughWells n ws = some l ∧ l[i]? = ws[i % ws.length]? := by
-  sorry
+  have hpos : 0 < ws.length := List.length_pos_iff.mpr h
+  refine ⟨_, eval_eq n ws h, ?_⟩
+  rw [List.getElem?_take_of_lt hi]
+  apply getElem?_replicate_flatten
+  have := lt_div_succ_mul n ws.length hpos
+  omega
 
 /-- `n = 0` gives the empty list. -/
 theorem zero (ws : List α) (h : ws ≠ []) : getTroughWells 0 ws = some [] := by
-  sorry
+  simp [getTroughWells, h]
 
 /-- Array-like arguments are read column-major: the result only depends on `flattenF`. -/
 theorem arr_colmajor (n r c : Nat) (l : List α) :
     getTroughWells n (Arr.mat r c l).flattenF
       = getTroughWells n ((List.range c).flatMap fun j => (List.range r).filterMap fun i => l[i * c + j]?) := by
-  sorry
+  rfl
 
 example : getTroughWells 5 ["A01", "B01"] = some ["A01", "B01", "A01", "B01", "A01"] := by decide
 
